@@ -1,4 +1,7 @@
 import NTV.Model.Ideal
+import NTV.Proofs.Lemmas.DecompProofsA
+import NTV.Proofs.Lemmas.DecompProofsC
+import NTV.Proofs.C16
 /-! # C17 — decomposition of a rational prime: what is proved so far.
 Kummer–Dedekind (primality of the P_i, norms, ∏P_i^e_i = (p), Σe_i f_i = n) is certified on every explored
 case by `NTV.Spec.Ideal` (recovery of g_i from P_i by linear algebra over F_p, irreducibility, exact ideal
@@ -25,5 +28,295 @@ theorem word_copy (p : Int) : (0 ≤ p → p < 2 ^ 64 → (wordOf p : Int) = p) 
   · intro h
     have hc : ¬ (0 ≤ p ∧ p < 2 ^ 64) := by omega
     unfold wordOf; rw [if_neg hc]
+
+
+/-! ## The structural part, for every draw stream (runs returning `.ok`)
+
+`f : List Int` is the monic minimal polynomial (`f.length = n + 1`, `lc f = 1`), `B` the basis matrix of
+the order (rows = coordinates of ω_0 … ω_{n−1} in 1, θ, …, θ^{n−1}), `t` its multiplication table, `p` a
+prime, `s` the stream of random draws of the modular factoriser (universally quantified). Vocabulary of
+C16 (`Lat`, `vec`, `star`, `e`, `TableRing`, `IsOIdeal`) and C14 (`NTV.Ord.elt B a` = Σ a_k ω_k as an
+element of ℚ[x]/(f)); `ratOf g` is the rational copy of g that the closure builds. The Kummer–Dedekind
+statements proper (primality of the P_i, N(P_i) = p^{f_i}, ∏ P_i^{e_i} = (p)) are **not** proved here. -/
+open NTV.PolyG NTV.PolyMod NTV.IdealP NTV.DecompP Polynomial
+open NTV.RowOps (toM Rect)
+open Matrix
+
+/-- **(1) shape.** A successful run factorised f modulo p (with the machine-word copy of p and the same
+stream) into pairs (g_i, e_i), and the result is, position by position, the pair (P_i, e_i) returned by
+the closure `primeAbove` on (g_i, e_i); the index guard was passed: (O : ℤ[θ]) is an integer that p does
+not divide (ℤ[θ] is stored as the identity matrix). -/
+theorem decompose_shape (f : List Int) (n : Nat) (hn : 1 ≤ n) (hfl : f.length = n + 1) (hmonic : lc f = 1)
+    (B : QMat) (t : Table) (p : Nat) (s : NTV.Draw.Stream) (res : List (HNF × Nat))
+    (h : decompose f B t (p : Int) s = .ok res) :
+    ∃ fs : Factors, factorizeModP f (p : Int) (wordOf p) s = .ok fs ∧ res.length = fs.length ∧
+      (∀ i (h1 : i < fs.length) (h2 : i < res.length),
+        res[i].2 = fs[i].2 ∧ primeAbove f B t (p : Int) fs[i].1 fs[i].2 = .ok res[i]) ∧
+      ∃ idx : Int, NTV.Ord.trivialOrderMonic f = .ok (NTV.Ord.identityQ n) ∧
+        NTV.Ord.index B (NTV.Ord.identityQ n) = .ok idx ∧ ¬ (p : Int) ∣ idx := by
+  obtain ⟨z, idx, fs, _, hz, hidx, _, hmod, hfs, hmap⟩ := decompose_ok h
+  obtain ⟨hl, hpt⟩ := (mapM_ok_iff _ fs res).mp hmap
+  have hz' := (NTV.C15.power_basis_discriminant f n hn hfl hmonic).1
+  rw [hz'] at hz
+  cases hz
+  refine ⟨fs, hfs, hl, fun i h1 h2 => ?_, idx, hz', hidx, fun hd => hmod (Int.dvd_iff_tmod_eq_zero.mp hd)⟩
+  have hi := hpt i h1 h2
+  refine ⟨?_, hi⟩
+  have : (res[i].1, res[i].2) = res[i] := rfl
+  rw [← this] at hi
+  exact primeAbove_snd hi
+
+/-- **(2) degrees.** With (g_i, e_i) the modular factors of a successful run: Σ e_i · deg g_i = n, the
+multiplicities of the result are the e_i, every e_i ≥ 1, every g_i is monic of degree ≥ 1 and irreducible
+over F_p, and the g_i are pairwise distinct. (`f.length < 2⁶⁴` holds for every coefficient vector; it is
+only needed when p does not fit a machine word, as in C08.) -/
+theorem degree_sum (f : List Int) (n : Nat) (hn : 1 ≤ n) (hfl : f.length = n + 1) (hmonic : lc f = 1)
+    (B : QMat) (t : Table) (p : Nat) (hp : p.Prime) (hlen : 2 ^ 64 ≤ p → f.length < 2 ^ 64)
+    (s : NTV.Draw.Stream) (res : List (HNF × Nat)) (h : decompose f B t (p : Int) s = .ok res) :
+    ∃ fs : Factors, factorizeModP f (p : Int) (wordOf p) s = .ok fs ∧
+      res.map Prod.snd = fs.map Prod.snd ∧
+      (fs.map (fun x => x.2 * degU x.1)).sum = n ∧
+      (∀ x ∈ fs, 1 ≤ x.2 ∧ 1 ≤ degU x.1 ∧ lc x.1 = 1 ∧
+        Irreducible ((toPoly x.1).map (Int.castRingHom (ZMod p)))) ∧
+      (fs.map Prod.fst).Nodup := by
+  have : Fact p.Prime := ⟨hp⟩
+  obtain ⟨fs, hfs, hl, hpt, _⟩ := decompose_shape f n hn hfl hmonic B t p s res h
+  have hw : p < 2 ^ 64 → wordOf (p : Int) = p := by
+    intro hlt
+    have := (word_copy (p : Int)).1 (by omega) (by exact_mod_cast hlt)
+    exact_mod_cast this
+  have hpu : wordOf (p : Int) = p ∨ f.length ≤ p := by
+    rcases Nat.lt_or_ge p (2 ^ 64) with h1 | h1
+    · exact Or.inl (hw h1)
+    · exact Or.inr (by have := hlen h1; omega)
+  obtain ⟨c1, c2, _⟩ := NTV.C08.factorization_correct p hp f (wordOf p) s fs hw hlen hfs
+  refine ⟨fs, hfs, ?_, degree_sum_core p f n hfl hmonic _ s fs hpu hfs, fun x hx => ?_, c2⟩
+  · apply List.ext_getElem (by simp [hl])
+    intro i h1 h2
+    simp only [List.getElem_map]
+    exact (hpt i (by simpa using h2) (by simpa using h1)).1
+  · obtain ⟨a, _, _, d, e, g⟩ := c1 x hx
+    refine ⟨e, ?_, a, g⟩
+    have hemp : x.1.isEmpty = false := by cases hq : x.1 <;> simp_all
+    unfold degU; rw [hemp]; simp only [Bool.false_eq_true, if_false]; omega
+
+/-- **(3) the closure, as lattices.** For a table `t` that is a commutative ring on ℤⁿ with identity e_0
+(`TableRing t n`), f of degree n and an n×n basis matrix B: if the closure returns (P, e) on (g, e) then
+`P = (elem) + (p)` where both principal ideals were computed without a panic,
+L(P) = L((elem)) + L((p)), L((elem)) = elem ⋆ ℤⁿ, L((p)) = pℤⁿ; P is an ideal of the order, contains
+p·e_0 (so P ∩ ℤ ⊇ pℤ); and `elem` is
+* for deg g < n: the result of `to_z_basis_int`, the integer solution of `elem · B = coefficients of g`,
+  i.e. Σ_k elem_k ω_k = g(θ) as elements of ℚ[x]/(f);
+* for deg g ≥ n (only deg g = n can occur for a factor of f mod p: p inert, g ≡ f): the zero vector —
+  the shortcut of the code for g(θ) ≡ f(θ) = 0 — and then (elem) = 0, P = (p). -/
+theorem prime_above_lattice (t : Table) (n : Nat) (T : TableRing t n) (f : List Int) (hfl : f.length = n + 1)
+    (B : QMat) (hB : Rect n n B) (p : Int) (g : List Int) (m : Nat) (P : HNF) (m' : Nat)
+    (h : primeAbove f B t p g m = .ok (P, m')) :
+    ∃ elem A Z, elem.length = n ∧ principal t elem = .ok A ∧
+      principal t (p :: List.replicate (n - 1) 0) = .ok Z ∧ add A Z = .ok P ∧ m' = m ∧
+      Lat n P = Lat n A ⊔ Lat n Z ∧
+      (∀ v, v ∈ Lat n A ↔ ∃ y, v = star t n (vec n elem) y) ∧ (∀ v, v ∈ Lat n Z ↔ ∃ y, v = p • y) ∧
+      IsOIdeal t n P ∧ p • e n ⟨0, T.pos⟩ ∈ Lat n P ∧
+      (degU (ratOf g) < n → NTV.Ord.toZBasisInt B (ratOf g) = .ok elem ∧
+        (fun k : Fin n => ((elem.getD k 0 : Int) : Rat)) ᵥ* toM n n B = (fun c : Fin n => coefAt (ratOf g) c) ∧
+        NTV.Ord.elt B elem = ratOf g) ∧
+      (n ≤ degU (ratOf g) → elem = List.replicate n 0 ∧ Lat n A = ⊥ ∧ Lat n P = Lat n Z) := by
+  have hemp : f.isEmpty = false := by cases f <;> simp_all
+  have hf : degU f = n := by simp [degU, hemp, hfl]
+  obtain ⟨elem, A, Z, h1, h2, h3, h4, h5, h6, _, _, _, _, lA, lZ, lP, oP, hpy⟩ := primeAbove_lattice_core T hf h
+  have hA : ∀ v, v ∈ Lat n A ↔ ∃ y, v = star t n (vec n elem) y := by
+    intro v
+    rw [lA, LinearMap.mem_range]
+    constructor
+    · rintro ⟨y, rfl⟩; exact ⟨y, rfl⟩
+    · rintro ⟨y, rfl⟩; exact ⟨y, rfl⟩
+  have hZ : ∀ v, v ∈ Lat n Z ↔ ∃ y, v = p • y := by
+    intro v
+    rw [lZ, LinearMap.mem_range]
+    constructor
+    · rintro ⟨y, rfl⟩; exact ⟨y, by rw [starB_apply, star_smul_left, T.one_star]⟩
+    · rintro ⟨y, rfl⟩; exact ⟨y, by rw [starB_apply, star_smul_left, T.one_star]⟩
+  refine ⟨elem, A, Z, h2, h3, h4, h5, h6, lP, hA, hZ, oP, ?_, ?_, ?_⟩
+  · have := hpy (e n ⟨0, T.pos⟩); exact this
+  · intro hlt
+    unfold elemSpec at h1
+    rw [hf, if_neg (by omega)] at h1
+    obtain ⟨_, hsol⟩ := toZBasisInt_spec B n hB _ _ h1
+    refine ⟨h1, hsol, elt_of_solution B n hB _ _ (canon_fromRaw _) ?_ hsol⟩
+    unfold degU at hlt
+    split at hlt
+    · rename_i he
+      rw [List.isEmpty_iff.mp he]; simp
+    · omega
+  · intro hge
+    unfold elemSpec at h1
+    rw [hf, if_pos hge] at h1
+    cases h1
+    have hbot : Lat n A = ⊥ := by
+      rw [eq_bot_iff]
+      intro v hv
+      obtain ⟨y, rfl⟩ := (hA v).mp hv
+      have hz : vec n (List.replicate n (0 : Int)) = 0 := by
+        funext k; simp [vec, List.getD_eq_getElem?_getD]
+      rw [hz, Submodule.mem_bot]
+      have := star_smul_left t n 0 0 y
+      simpa using this
+    exact ⟨rfl, hbot, by rw [lP, hbot, bot_sup_eq]⟩
+
+/-- **(4) P ∩ ℤ.** For a prime p a returned ideal has full rank (n rows), `cap_z` returns p or 1,
+{z ∈ ℤ | z·e_0 ∈ L(P)} = cℤ, and it returns p exactly when P is not the unit ideal. -/
+theorem prime_above_capZ (t : Table) (n : Nat) (T : TableRing t n) (f : List Int) (hfl : f.length = n + 1)
+    (B : QMat) (p : Nat) (hp : p.Prime) (g : List Int) (m : Nat) (P : HNF) (m' : Nat)
+    (h : primeAbove f B t (p : Int) g m = .ok (P, m')) :
+    P.length = n ∧ ∃ c, capZ P = .ok c ∧ (c = p ∨ c = 1) ∧ (c = p ↔ Lat n P ≠ ⊤) ∧
+      ∀ z : ℤ, z • e n ⟨0, T.pos⟩ ∈ Lat n P ↔ c ∣ z := by
+  have hemp : f.isEmpty = false := by cases f <;> simp_all
+  have hf : degU f = n := by simp [degU, hemp, hfl]
+  obtain ⟨hfull, c, h1, h2, h3, h4⟩ := capZ_above T hf p hp h
+  refine ⟨hfull, c, h1, h2, ?_, h4⟩
+  have hp1 : (p : Int) ≠ 1 := by exact_mod_cast hp.one_lt.ne'
+  rw [ne_eq, ← h3]
+  rcases h2 with h2 | h2
+  · rw [h2]; simp [hp1]
+  · rw [h2]; simp [hp1.symm]
+
+/-- **(1)–(4) together**, for the pairs returned by `decompose`: every returned (P, e) comes from a modular
+factor (g, e) of the run through the closure, is an ideal of the order of full rank containing p, and
+meets ℤ in pℤ or in ℤ. -/
+theorem decompose_ideals (f : List Int) (n : Nat) (hn : 1 ≤ n) (hfl : f.length = n + 1) (hmonic : lc f = 1)
+    (B : QMat) (t : Table) (T : TableRing t n) (p : Nat) (hp : p.Prime) (s : NTV.Draw.Stream)
+    (res : List (HNF × Nat)) (h : decompose f B t (p : Int) s = .ok res) :
+    ∃ fs : Factors, factorizeModP f (p : Int) (wordOf p) s = .ok fs ∧ res.length = fs.length ∧
+      ∀ Pe ∈ res, ∃ g, (g, Pe.2) ∈ fs ∧ primeAbove f B t (p : Int) g Pe.2 = .ok Pe ∧
+        IsOIdeal t n Pe.1 ∧ Pe.1.length = n ∧ (∀ y : Fin n → ℤ, (p : Int) • y ∈ Lat n Pe.1) ∧
+        ∃ c, capZ Pe.1 = .ok c ∧ (c = p ∨ c = 1) ∧ (c = p ↔ Lat n Pe.1 ≠ ⊤) := by
+  obtain ⟨fs, hfs, hl, hpt, _⟩ := decompose_shape f n hn hfl hmonic B t p s res h
+  refine ⟨fs, hfs, hl, fun Pe hPe => ?_⟩
+  obtain ⟨i, hi, rfl⟩ := List.mem_iff_getElem.mp hPe
+  have hi' : i < fs.length := by omega
+  obtain ⟨he, hpa⟩ := hpt i hi' hi
+  have hemp : f.isEmpty = false := by cases f <;> simp_all
+  have hf : degU f = n := by simp [degU, hemp, hfl]
+  have hpa' : primeAbove f B t (p : Int) fs[i].1 fs[i].2 = .ok (res[i].1, res[i].2) := hpa
+  obtain ⟨_, _, _, _, _, _, _, _, _, _, _, _, _, _, _, _, oP, hpy⟩ := primeAbove_lattice_core T hf hpa'
+  obtain ⟨hfull, c, c1, c2, c3, _⟩ := prime_above_capZ t n T f hfl B p hp _ _ _ _ hpa'
+  refine ⟨fs[i].1, ?_, ?_, oP, hfull, hpy, c, c1, c2, c3⟩
+  · rw [he]; exact List.getElem_mem hi'
+  · rw [he]; exact hpa
+
+/-- **(1)–(3) together: the lattices of the returned ideals.** With (g_i, e_i) the modular factors of a
+successful run (monic f of degree n, n×n basis matrix B, table a ring with identity e_0): every deg g_i ≤ n;
+for deg g_i < n there is an integer vector `elem` with Σ_k elem_k ω_k = g_i(θ) in ℚ[x]/(f) (equality of the
+stored expressions: `elt B elem` is the list of the coefficients of g_i) and
+L(P_i) = elem ⋆ ℤⁿ + pℤⁿ, i.e. P_i = (g_i(θ)) + (p); for deg g_i = n (p inert) L(P_i) = pℤⁿ, i.e. P_i = (p). -/
+theorem decompose_lattices (f : List Int) (n : Nat) (hn : 1 ≤ n) (hfl : f.length = n + 1) (hmonic : lc f = 1)
+    (B : QMat) (hB : Rect n n B) (t : Table) (T : TableRing t n) (p : Nat) (hp : p.Prime)
+    (hlen : 2 ^ 64 ≤ p → f.length < 2 ^ 64) (s : NTV.Draw.Stream) (res : List (HNF × Nat))
+    (h : decompose f B t (p : Int) s = .ok res) :
+    ∃ fs : Factors, factorizeModP f (p : Int) (wordOf p) s = .ok fs ∧ res.length = fs.length ∧
+      ∀ i (h1 : i < fs.length) (h2 : i < res.length), res[i].2 = fs[i].2 ∧ degU fs[i].1 ≤ n ∧
+        (degU fs[i].1 < n → ∃ elem : List Int, elem.length = n ∧
+          NTV.Ord.elt B elem = fs[i].1.map (fun (c : Int) => (c : Rat)) ∧
+          ∀ v, v ∈ Lat n res[i].1 ↔ ∃ y z, v = star t n (vec n elem) y + (p : Int) • z) ∧
+        (degU fs[i].1 = n → ∀ v, v ∈ Lat n res[i].1 ↔ ∃ z, v = (p : Int) • z) := by
+  obtain ⟨fs, hfs, hl, hpt, _⟩ := decompose_shape f n hn hfl hmonic B t p s res h
+  obtain ⟨fs', hfs', _, hsum, hprop, _⟩ := degree_sum f n hn hfl hmonic B t p hp hlen s res h
+  rw [hfs] at hfs'; cases hfs'
+  have hw : p < 2 ^ 64 → wordOf (p : Int) = p := by
+    intro hlt
+    have := (word_copy (p : Int)).1 (by omega) (by exact_mod_cast hlt)
+    exact_mod_cast this
+  have hshape := NTV.C08.factor_shape p hp f (wordOf p) s fs hw hlen hfs
+  refine ⟨fs, hfs, hl, fun i h1 h2 => ?_⟩
+  obtain ⟨he, hpa⟩ := hpt i h1 h2
+  have hmem : fs[i] ∈ fs := List.getElem_mem h1
+  obtain ⟨e1, _, _, _⟩ := hprop _ hmem
+  obtain ⟨_, _, hcan, _, _⟩ := hshape _ hmem
+  obtain ⟨r1, r2, _⟩ := ratOf_canon _ hcan
+  have hle : degU fs[i].1 ≤ n := by
+    have h1' : fs[i].2 * degU fs[i].1 ≤ (fs.map (fun x => x.2 * degU x.1)).sum :=
+      List.single_le_sum (by intro x _; exact Nat.zero_le x) _
+        (List.mem_map.mpr ⟨fs[i], hmem, rfl⟩)
+    rw [hsum] at h1'
+    calc degU fs[i].1 = 1 * degU fs[i].1 := (one_mul _).symm
+      _ ≤ fs[i].2 * degU fs[i].1 := Nat.mul_le_mul_right _ e1
+      _ ≤ n := h1'
+  have hpa' : primeAbove f B t (p : Int) fs[i].1 fs[i].2 = .ok (res[i].1, res[i].2) := hpa
+  obtain ⟨elem, A, Z, l1, _, _, _, _, lP, lA, lZ, _, _, c1, c2⟩ :=
+    prime_above_lattice t n T f hfl B hB _ _ _ _ _ hpa'
+  refine ⟨he, hle, fun hlt => ?_, fun heq => ?_⟩
+  · obtain ⟨_, _, c⟩ := c1 (by rw [r2]; exact hlt)
+    refine ⟨elem, l1, by rw [c, r1], fun v => ?_⟩
+    rw [lP, Submodule.mem_sup]
+    constructor
+    · rintro ⟨a, ha, b, hb, rfl⟩
+      obtain ⟨y, rfl⟩ := (lA a).mp ha
+      obtain ⟨z, rfl⟩ := (lZ b).mp hb
+      exact ⟨y, z, rfl⟩
+    · rintro ⟨y, z, rfl⟩
+      exact ⟨_, (lA _).mpr ⟨y, rfl⟩, _, (lZ _).mpr ⟨z, rfl⟩, rfl⟩
+  · obtain ⟨_, _, c⟩ := c2 (by rw [r2, heq])
+    intro v
+    rw [c, lZ]
+
+/-! ### non-vacuity: ℤ[√-5] (f = x² + 5, B = identity, table `NTV.C16.t5`): 3 splits, 2 ramifies, 11 is inert -/
+
+instance : DecidableEq (Except String (List (HNF × Nat))) := fun a b =>
+  match a, b with
+  | .ok x, .ok y => if h : x = y then isTrue (by rw [h]) else isFalse (by intro e; cases e; exact h rfl)
+  | .error x, .error y => if h : x = y then isTrue (by rw [h]) else isFalse (by intro e; cases e; exact h rfl)
+  | .ok _, .error _ => isFalse (by intro e; cases e)
+  | .error _, .ok _ => isFalse (by intro e; cases e)
+
+instance : DecidableEq (Except String (HNF × Nat)) := fun a b =>
+  match a, b with
+  | .ok x, .ok y => if h : x = y then isTrue (by rw [h]) else isFalse (by intro e; cases e; exact h rfl)
+  | .error x, .error y => if h : x = y then isTrue (by rw [h]) else isFalse (by intro e; cases e; exact h rfl)
+  | .ok _, .error _ => isFalse (by intro e; cases e)
+  | .error _, .ok _ => isFalse (by intro e; cases e)
+
+/-- (3) = (3, θ+2)(3, θ+1): two random draws are consumed -/
+theorem split3 : decompose [5, 0, 1] [[1, 0], [0, 1]] NTV.C16.t5 ((3 : Nat) : Int) [[0,0,0,0],[0,0,0,64]] =
+    .ok [([[3, 0], [2, 1]], 1), ([[3, 0], [1, 1]], 1)] := by decide +kernel
+/-- (2) = (2, θ+1)²: no draw is needed -/
+theorem ramified2 : decompose [5, 0, 1] [[1, 0], [0, 1]] NTV.C16.t5 ((2 : Nat) : Int) [] =
+    .ok [([[2, 0], [1, 1]], 2)] := by decide +kernel
+/-- (11) is prime: g = f mod 11 has degree 2, the zero vector is handed to `principal` -/
+theorem inert11 : decompose [5, 0, 1] [[1, 0], [0, 1]] NTV.C16.t5 ((11 : Nat) : Int) [] =
+    .ok [([[11, 0], [0, 11]], 1)] := by decide +kernel
+
+example := decompose_shape [5, 0, 1] 2 (by decide) rfl rfl _ _ 3 _ _ split3
+example := decompose_shape [5, 0, 1] 2 (by decide) rfl rfl _ _ 2 _ _ ramified2
+
+/-- 1·1 + 1·1 = 2 and 2·1 = 2, by the theorem -/
+example : ∃ fs : Factors, factorizeModP [5, 0, 1] ((3 : Nat) : Int) (wordOf (3 : Nat)) [[0,0,0,0],[0,0,0,64]] = .ok fs ∧
+    (fs.map (fun x => x.2 * degU x.1)).sum = 2 := by
+  obtain ⟨fs, h1, _, h3, _⟩ := degree_sum [5, 0, 1] 2 (by decide) rfl rfl _ _ 3 (by norm_num) (fun h => by omega)
+    _ _ split3
+  exact ⟨fs, h1, h3⟩
+example := degree_sum [5, 0, 1] 2 (by decide) rfl rfl _ _ 2 (by norm_num) (fun h => by omega) _ _ ramified2
+example := degree_sum [5, 0, 1] 2 (by decide) rfl rfl _ _ 11 (by norm_num) (fun h => by omega) _ _ inert11
+
+theorem above3 : primeAbove [5, 0, 1] [[1, 0], [0, 1]] NTV.C16.t5 ((3 : Nat) : Int) [2, 1] 1 = .ok ([[3, 0], [2, 1]], 1) := by
+  decide +kernel
+theorem above11 : primeAbove [5, 0, 1] [[1, 0], [0, 1]] NTV.C16.t5 ((11 : Nat) : Int) [5, 0, 1] 1 =
+    .ok ([[11, 0], [0, 11]], 1) := by decide +kernel
+
+example := prime_above_lattice NTV.C16.t5 2 NTV.C16.t5_ring [5, 0, 1] rfl [[1, 0], [0, 1]] ⟨rfl, by simp⟩ _ _ _ _ _ above3
+example := prime_above_lattice NTV.C16.t5 2 NTV.C16.t5_ring [5, 0, 1] rfl [[1, 0], [0, 1]] ⟨rfl, by simp⟩ _ _ _ _ _ above11
+/-- both branches occur: deg (x + 2) = 1 < 2 and deg (x² + 5) = 2 -/
+example : degU (ratOf [2, 1]) < 2 ∧ 2 ≤ degU (ratOf [5, 0, 1]) := by decide +kernel
+/-- (3, θ + 2) is a proper ideal meeting ℤ in 3ℤ, by the theorem -/
+example : Lat 2 ([[3, 0], [2, 1]] : HNF) ≠ ⊤ := by
+  obtain ⟨_, c, h1, _, h3, _⟩ := prime_above_capZ NTV.C16.t5 2 NTV.C16.t5_ring [5, 0, 1] rfl [[1, 0], [0, 1]] 3
+    (by norm_num) _ _ _ _ above3
+  have : c = 3 := by cases h1; rfl
+  exact h3.mp this
+example := decompose_ideals [5, 0, 1] 2 (by decide) rfl rfl _ _ NTV.C16.t5_ring 3 (by norm_num) _ _ split3
+example := decompose_ideals [5, 0, 1] 2 (by decide) rfl rfl _ _ NTV.C16.t5_ring 2 (by norm_num) _ _ ramified2
+example := decompose_lattices [5, 0, 1] 2 (by decide) rfl rfl _ ⟨rfl, by simp⟩ _ NTV.C16.t5_ring 3 (by norm_num)
+  (fun h => by omega) _ _ split3
+example := decompose_lattices [5, 0, 1] 2 (by decide) rfl rfl _ ⟨rfl, by simp⟩ _ NTV.C16.t5_ring 11 (by norm_num)
+  (fun h => by omega) _ _ inert11
 
 end NTV.C17
